@@ -195,8 +195,13 @@ func (c *xtsDecrypter) CryptBlocks(plaintext, ciphertext []byte) {
 	if concCipher, ok := c.b.(concurrentBlocks); ok {
 		batchSize := concCipher.Concurrency() * blockSize
 		var tweaks []byte = make([]byte, batchSize)
+		// with a partial final block, the last whole block is left to the ciphertext stealing step below
+		reserve := 0
+		if len(ciphertext)%blockSize != 0 {
+			reserve = blockSize
+		}
 
-		for len(ciphertext) >= batchSize {
+		for len(ciphertext) >= batchSize+reserve {
 			doubleTweaks(&c.tweak, tweaks, c.isGB)
 			subtle.XORBytes(plaintext, ciphertext, tweaks)
 			concCipher.DecryptBlocks(plaintext, plaintext)
